@@ -70,12 +70,11 @@ def program(cls_name, N, h, hs, kmax, both_flags):
             terms = [full.terminated[0][j] for j in range(hs)]
             truncs = [full.truncated[0][j] for j in range(hs)]
             # window prefix up to and including the first terminated step
+            # never-written slots must not appear anywhere in the returned window (also after its first terminated step)
+            for j in range(hs):
+                ctx.check(not any(is_poison(x) for x in (obs[j], acts[j], nobs[j], rews[j], terms[j], truncs[j])), "never-reads-a-slot-that-was-never-written")
             f = hs - 1
             for j in range(hs):
-                ctx.check(not any(is_poison(x) for x in (obs[j], acts[j], nobs[j], rews[j], terms[j], truncs[j])) if j <= f else True,
-                          "never-reads-a-slot-that-was-never-written")
-                if is_poison(terms[j]):
-                    break
                 if int(terms[j]) == 1:
                     f = j
                     break
